@@ -93,11 +93,17 @@ vars == <<mode, settings, configured, queue, accB, refused, mem, blen, live, cou
 (* bytes *)
 Size(r) == Len(r.bytes)
 
-RECURSIVE SumSize(_)
-SumSize(rs) == IF rs = <<>> THEN 0 ELSE Size(rs[1]) + SumSize(Tail(rs))
+\* (index recursion / halving: Tail and one-by-one concatenation copy the rest at every level)
+RECURSIVE SumTo(_, _)
+SumTo(rs, i) == IF i = 0 THEN 0 ELSE Size(rs[i]) + SumTo(rs, i - 1)
+SumSize(rs) == SumTo(rs, Len(rs))
 
-RECURSIVE Encoding(_)
-Encoding(rs) == IF rs = <<>> THEN <<>> ELSE rs[1].bytes \o Encoding(Tail(rs))
+RECURSIVE EncRange(_, _, _)
+EncRange(rs, lo, hi) ==
+  IF lo > hi THEN <<>>
+  ELSE IF lo = hi THEN rs[lo].bytes
+  ELSE LET mid == (lo + hi) \div 2 IN EncRange(rs, lo, mid) \o EncRange(rs, mid + 1, hi)
+Encoding(rs) == EncRange(rs, 1, Len(rs))
 
 \* region m with b written at offset off (0-based); bytes beyond stay what they were
 WriteAt(m, off, b) ==
@@ -311,9 +317,9 @@ CountMatches ==
   /\ count = Len(live)
 
 \* at hand-over the payload is exactly the encodings of the pack's records, in order
+DecodablePack(p) == p.snap = Encoding(p.recs) /\ p.ulen = SumSize(p.recs)
 Decodable ==
-  /\ \A i \in 1..Len(emitted) : /\ emitted[i].snap = Encoding(emitted[i].recs)
-                                /\ emitted[i].ulen = SumSize(emitted[i].recs)
+  /\ \A i \in 1..Len(emitted) : DecodablePack(emitted[i])
   /\ blen = SumSize(live) /\ SubSeq(mem[1], 1, blen) = Encoding(live)
 
 ZipIff == \A i \in 1..Len(emitted) : emitted[i].zipped <=> emitted[i].ulen >= emitted[i].zmin
